@@ -118,3 +118,10 @@ reg("C12",
     level_note="Trusted: the encoders in vf/oracle/native.py (they state the convention each model uses; the WW3 and ERA5 layouts were checked against tests/sample_files headers). float32 natives (WW3, ERA5) are compared at 3e-5.",
     rule="case = (model x entry point x option set); distinct = distinct keys per oracle; all cases non-trivial (random multi-lobe spectra, different at each position)",
     must_observe=["dispatch", "convention", "bins", "variance", "wind", "direction_sense" if False else "dir_range", "ndbc_integrates_to_1d", "ndbc_1d_unchanged"])
+
+reg("C11",
+    technique="runtime round-trip monitor: real writer -> file in a private temp dir -> real reader, compared position by position within the format's numeric resolution",
+    level_text="Generated datasets in the wavespectra convention (1-6 times, 1-5 sites or lat x lon grids of unequal sizes, sorted/rolled/reversed directions, energies 1e-8..1e3, zero and all-missing spectra, gzip, chunked writing) are written with to_swan / to_octopus / to_json / to_netcdf (NetCDF-3, packed and unpacked) / to_ww3 / to_funwave and read back with the matching reader; times, position (lon/lat or site order), frequencies, directions and every density must agree to the format's quantum (SWAN 0.5 max/9998, Octopus 5e-8/(df dd), packed netCDF 0.5e-5, Funwave from %12.8f amplitudes, 4 ulp otherwise); zero stays zero and missing stays missing where the format has a NODATA/_FillValue/NaN. Held = on the round trips observed.",
+    level_note="Not driven: NetCDF-4, zlib compression and zarr (no netCDF4/h5netcdf/zarr in this sandbox; only the scipy NetCDF-3 backend), so to_netcdf is called with ncformat=NETCDF3_64BIT, compress=False. Frequencies are generated on the text resolution of the formats (5 decimals) so that widths parsed from the file equal those written.",
+    rule="case = (format/layout x number of positions x stored direction order x time count class x options) x spectrum kind (normal, tiny, huge, zero, nan); distinct = distinct keys; every compared spectrum is an evaluation",
+    must_observe=["roundtrip_swan", "roundtrip_octopus", "roundtrip_json", "roundtrip_netcdf", "roundtrip_ww3", "roundtrip_funwave"])
